@@ -458,7 +458,7 @@ func runC19(c *Ctx) {
 	r5 := c.Rule("errors-are-4xx", "every HTTP status constant a handler writes is 200, 207 or 4xx; every strconv/ShouldBindJSON error is answered with 400 followed by return; on a non-nil IProject error every path writes a 4xx/207 status")
 	for _, key := range SortedKeys(byKey) {
 		h := byKey[key].Handler
-		jsonCalls := ginJSONCalls(h)
+		jsonCalls := ginJSONCallsDeep(h)
 		for _, jc := range jsonCalls {
 			code, ok := ConstInt(jc.Call.Args[1])
 			if !ok {
@@ -526,6 +526,33 @@ func runC19(c *Ctx) {
 				return
 			}
 			if !tested {
+				// the error is handed to a responder that tests it and answers
+				for _, x := range FindInstrs(h, func(x ssa.Instruction) bool { _, isC := x.(*ssa.Call); return isC }) {
+					rc := x.(*ssa.Call)
+					g := rc.Call.StaticCallee()
+					if g == nil || !isOneOfFn(g, responders(h)) {
+						continue
+					}
+					for j, a := range rc.Call.Args {
+						if !isErr(a) || j >= len(g.Params) || a.Type().String() != "error" {
+							continue
+						}
+						prm := g.Params[j]
+						isPrm := func(v ssa.Value) bool { return stripConv(v) == ssa.Value(prm) }
+						okR := errorAnswerOK(g, Entry(g), NilEdgeOf(isPrm, false), !strings.HasPrefix(kind, "op:"))
+						// nothing is answered or requested after the responder returns
+						for y := range Reach([]Pt{after(rc)}, nil, nil) {
+							if yc, isC := y.(*ssa.Call); isC && (isGinJSON(yc) || isIProjectCall(yc)) {
+								okR = false
+							}
+						}
+						c.Check(okR, r5, "error-answer:"+key+":"+kind, p.InstrPos(call), "error answered with a 4xx status and return (by "+p.FuncKey(g)+")", "on the error of "+kind+" the responder "+p.FuncKey(g)+" does not answer 4xx and return on every path")
+						tested = true
+					}
+				}
+				if tested {
+					return
+				}
 				if strings.HasPrefix(kind, "parse:ParseBool") {
 					return // optional query flag with a default
 				}
@@ -602,7 +629,7 @@ func runC19(c *Ctx) {
 		})) == 0 {
 			continue
 		}
-		a := &LinAnalysis{P: p, Fn: f, Assume: []Lin{LE(TConst(0), TVar(CellLen("p0.buffer")))}}
+		a := &LinAnalysis{P: p, Fn: f, Assume: []Lin{LE(TConst(0), TVar(CellLen("p0." + fBuffer.Name())))}}
 		a.Run()
 		for i, o := range a.Obligations {
 			c.Check(o.OK, r6, fmt.Sprintf("bounds:%s:slice#%d", p.FuncKey(f), i+1), p.InstrPos(o.Instr), "slice bounds proved for all path parameters", "a log range request with suitable (endOffset, limit) panics in the range function: the server answers 500")
@@ -763,10 +790,44 @@ func ginJSONCalls(f *ssa.Function) []*ssa.Call {
 	return out
 }
 
+// responders: functions of the handler's package that the handler hands its *gin.Context to (shared reply helpers).
+func responders(h *ssa.Function) []*ssa.Function {
+	var out []*ssa.Function
+	AllInstrs(h, func(in ssa.Instruction) {
+		call, ok := in.(*ssa.Call)
+		if !ok {
+			return
+		}
+		sc := call.Call.StaticCallee()
+		if sc == nil || len(sc.Blocks) == 0 || pkgOfFunc(sc) == nil || pkgOfFunc(sc) != pkgOfFunc(h) {
+			return
+		}
+		for _, a := range call.Call.Args {
+			if pt, ok := a.Type().(*types.Pointer); ok {
+				if nt, ok := pt.Elem().(*types.Named); ok && nt.Obj().Name() == "Context" && nt.Obj().Pkg() != nil && strings.HasSuffix(nt.Obj().Pkg().Path(), "gin") {
+					if len(ginJSONCalls(sc)) > 0 {
+						out = appendUniq(out, sc)
+					}
+				}
+			}
+		}
+	})
+	return out
+}
+
+// ginJSONCallsDeep: the answers written by the handler itself and by its responders.
+func ginJSONCallsDeep(h *ssa.Function) []*ssa.Call {
+	out := ginJSONCalls(h)
+	for _, r := range responders(h) {
+		out = append(out, ginJSONCalls(r)...)
+	}
+	return out
+}
+
 // successPayloadTypes: static types of x in c.JSON(200|207, x).
 func successPayloadTypes(h *ssa.Function) []types.Type {
 	var out []types.Type
-	for _, jc := range ginJSONCalls(h) {
+	for _, jc := range ginJSONCallsDeep(h) {
 		code, ok := ConstInt(jc.Call.Args[1])
 		if !ok || (code != 200 && code != 207) {
 			continue
@@ -1048,4 +1109,52 @@ func urlEscapeOf(v ssa.Value, depth int) string {
 		}
 	}
 	return res
+}
+
+func isOneOfFn(f *ssa.Function, fs []*ssa.Function) bool {
+	for _, g := range fs {
+		if g == f {
+			return true
+		}
+	}
+	return false
+}
+
+func isIProjectCall(yc *ssa.Call) bool {
+	if !yc.Call.IsInvoke() {
+		return false
+	}
+	nt, ok := yc.Call.Value.Type().(*types.Named)
+	return ok && nt.Obj().Name() == "IProject"
+}
+
+// errorAnswerOK: from start, following only the edges on which the error is non-nil, every path writes a 4xx (or
+// 207 for operation errors) answer and then returns without a second answer or a further IProject call.
+func errorAnswerOK(f *ssa.Function, start []Pt, edge EdgeFilter, want400 bool) bool {
+	vis := Reach(start, func(x ssa.Instruction) bool {
+		jc, isJ := x.(*ssa.Call)
+		return isJ && isGinJSON(jc)
+	}, edge)
+	ok4, sawJSON := true, false
+	for x := range vis {
+		if jc, isJ := x.(*ssa.Call); isJ && isGinJSON(jc) {
+			sawJSON = true
+			code, okc := ConstInt(jc.Call.Args[1])
+			if !okc || !((code >= 400 && code < 500) || (!want400 && code == 207)) {
+				ok4 = false
+			}
+			if want400 && code != 400 {
+				ok4 = false
+			}
+			for y := range Reach([]Pt{after(jc)}, nil, nil) {
+				if yc, isC := y.(*ssa.Call); isC && (isGinJSON(yc) || isIProjectCall(yc)) {
+					ok4 = false
+				}
+			}
+		}
+		if _, isRet := x.(*ssa.Return); isRet {
+			ok4 = false
+		}
+	}
+	return ok4 && sawJSON
 }
